@@ -1,0 +1,27 @@
+//go:build verif
+
+// Contracts read by /verif/govc (comment-only; never compiled into the node).
+
+package validator
+
+//@ func ComputeWidth
+//@   props C29
+//@   ensures positive: result >= 1
+//@   opt inline
+
+// grid neighbour relation inside the current epoch: same row or same column of the width-w grid, w = ComputeWidth(V)
+//@ func (*GridMapper).IsNeighborInEpoch
+//@   props C29
+//@   requires nonnil: g != nil
+//@   let n = len(g.Current)
+//@   let w = ComputeWidth(len(g.Current))
+//@   ensures exact: result == (n > 0 && a >= 0 && b >= 0 && a < n && b < n && a != b && (a/w == b/w || a%w == b%w))
+//@   ensures irreflexive: a == b ==> !result
+//@   ensures symmetric: result == g.IsNeighborInEpoch(b, a)
+
+// P(a, b): both peers compute the same initiator, which is one of the two keys
+//@ func PreferredInitiator
+//@   props C29
+//@   ensures oneof: result == a || result == b
+//@   ensures symmetric: result == PreferredInitiator(b, a)
+//@   ensures equal: a == b ==> result == a
